@@ -411,9 +411,12 @@ class Ctx:
         return self._kf
 
     def add_violation(self, msg, sig="", case=None):
+        # a signature may list alternatives separated by "||" (a behaviour that passed the triggers of several
+        # known findings attributes a mismatch to any of them)
+        alts = [x for x in (sig or "").split("||") if x]
         for kf in self.known_findings():
-            if kf.get("property") == self.prop and kf.get("status") == "open" and sig and \
-                    re.fullmatch(kf.get("signature_regex", "$^"), sig):
+            if kf.get("property") == self.prop and kf.get("status") == "open" and \
+                    any(re.fullmatch(kf.get("signature_regex", "$^"), a) for a in alts):
                 if not any(k[0].get("id") == kf.get("id") for k in self.known):
                     self.known.append((kf, msg))
                 return
